@@ -1,6 +1,8 @@
 \* thorough, hostile peers: four-letter alphabet up to header + 2 for lfl 1..4 and the delimiters,
 \* three-letter alphabet up to header + 1 for lfl 5..8; one read error
 CONSTANTS
+  FixExtractOverflow = TRUE
+  FixFramerError = TRUE
   Lfls = {}
   HostLfls = {1, 2, 3, 4, 5, 6, 7, 8}
   Endians = {TRUE, FALSE}
@@ -28,5 +30,5 @@ CONSTANTS
   MaxErr = 0
   AfterDone = 0
 SPECIFICATION Spec
-INVARIANTS InRange PosInside NoPanicModuloKnown BuiltinNeverPoisoned MeasureNonNeg
+INVARIANTS InRange PosInside NoPanic ErrorOnlyWhenRefused MeasureNonNeg
 PROPERTIES Progress
